@@ -26,6 +26,11 @@ CHECKS = {
          "be(crc16_x25 | crc32c) of the block serialized with a zero-filled CRC field, type 0 has no field, fresh encodings pass the check; CRC definition "
          "= bitwise reflected register with catalogue parameters regenerated from src/crc.rs + crc-catalog (check values re-verified by the kernel); crc "
          "crate tied by the K-crc channel.", "as C01; crate `crc` table implementation tied by differential testing only.", "DESIGN.md section 6 C04"),
+ "C07": ("Coq theorems C07_validate_iff / C07_rejects_nonempty / C07_on_decoded: for every bundle in the decoder's image (C07_decoded_shape, by inverting "
+         "the stream-parser model) outside the stale reserved masks, the transcription of Bundle::validate returns no error iff the rule list of the "
+         "property text (raw bit tests, NoDup block numbers, at-most-once singleton types, payload present, status-report restriction, creation-time-zero "
+         "rule) holds; K-val channel on bytes of the Python reference encoder over the rule space with a Python transcription of the rules as oracle.",
+         "bitflags from_bits_truncate/contains semantics modelled; HashSet modelled as list membership.", "DESIGN.md section 6 C07"),
  "C09": ("Coq theorems C09_unique / C09_unique_from / C09_complete / C09_sequential*: NoDup of returned (time, seq) pairs for every number of threads, calls, "
          "clock readings and every interleaving of the instrumented operations (invariant over the schedule), plus the non-overlapping clause; "
          "C09_pinned_refuted keeps the two-atomics defect machine-checked; model tied to the real now() by running model schedules on OS threads "
@@ -44,7 +49,7 @@ CHECKS = {
 
 PENDING = {
  "C05": "check not built yet (CRC window algebra is proved in Proofs/CrcAlgebra.v; pipeline theorem and channel pending)",
- "C06": "check not built yet", "C07": "check not built yet", "C08": "check not built yet", "C10": "check not built yet",
+ "C06": "check not built yet", "C08": "check not built yet", "C10": "check not built yet",
  "C11": "check not built yet", "C12": "check not built yet", "C13": "check not built yet", "C14": "check not built yet",
  "C15": "check not built yet", "C16": "check not built yet", "C19": "check not built yet", "C20": "check not built yet",
 }
